@@ -224,7 +224,7 @@ fn issuance<C: Cs>(ctx: &Ctx, st: &Setup<C>, own: Option<&CL03CommitmentPublicKe
     // field-wise edits of the serialized ZKPoK
     if tamper {
         let j = serde_json::to_value(&run.zk).unwrap();
-        let variants = tampered_variants(&j, r, ctx.t(60, 400));
+        let variants = tampered_variants_mod(&j, r, ctx.t(60, 400), Some(&st.pk().N));
         ctx.count("zkpok_leaves", leaves(&j).len() as u64);
         ctx.count("zkpok_tampered_variants", variants.len() as u64);
         let sign_every = ctx.t(40, 10);
